@@ -607,21 +607,6 @@ func runAnon(c *vf.Check, sname string, n int) {
 					x.Failf(pk+"/wrong-key-accepted", "%s: an outsider's key at index %d decrypts without error (%d bytes)", id, mine, len(out))
 				}
 			}
-			// forging strategy: the body altered and the 16-byte tag recomputed the way anyone can who knows the suite
-			// (the tag is the suite's XOF seeded with the ciphertext body): an authenticated scheme must refuse
-			if ml > 0 && len(ct) >= hdr+ml+16 {
-				mut := append([]byte{}, ct...)
-				mut[hdr+ml/2] ^= 0x20
-				tag := make([]byte, 16)
-				_, _ = s.XOF(mut[hdr:hdr+ml]).Read(tag)
-				copy(mut[len(mut)-16:], tag)
-				guard(x, pk+"/panic", id+" body altered, tag recomputed", func() {
-					c.Eval(1)
-					if out, err := anon.Decrypt(s, mut, set, n-1, privs[n-1]); err == nil && !bytes.Equal(out, msg) {
-						x.Failf(pk+"/body-altered-tag-recomputed", "%s: with one body bit flipped and the tag recomputed as XOF(body) - no key needed - Decrypt returns a different plaintext without error", id)
-					}
-				})
-			}
 			mine := n - 1
 			type flip struct{ i, k, j int } // j >= 0: the same bit of byte j is flipped as well
 			var flips []flip
@@ -679,6 +664,29 @@ func runAnon(c *vf.Check, sname string, n int) {
 				})
 			}
 		})
+		// forging strategy (a case of its own): the body altered and the 16-byte tag recomputed the way anyone can who
+		// knows the suite (the tag is the suite's XOF seeded with the ciphertext body): an authenticated scheme must refuse
+		if ml > 0 && have && merr == nil {
+			c.Case(id+": body altered, tag recomputed without a key", pk, func(x *vf.Ctx) {
+				msg := plaintext(ml, 0)
+				ct := mct
+				hdr := s.PointLen() + n*s.ScalarLen()
+				if len(ct) < hdr+ml+16 {
+					return
+				}
+				mut := append([]byte{}, ct...)
+				mut[hdr+ml/2] ^= 0x20
+				tag := make([]byte, 16)
+				_, _ = s.XOF(mut[hdr : hdr+ml]).Read(tag)
+				copy(mut[len(mut)-16:], tag)
+				guard(x, pk+"/panic", id+" body altered, tag recomputed", func() {
+					c.Eval(1)
+					if out, err := anon.Decrypt(s, mut, set, n-1, privs[n-1]); err == nil && !bytes.Equal(out, msg) {
+						x.Failf(pk+"/body-altered-tag-recomputed", "%s: with one body bit flipped and the tag recomputed as XOF(body) - no key needed - Decrypt returns a different plaintext without error", id)
+					}
+				})
+			})
+		}
 		c.Count("transitions", 1)
 		c.Count("states", 1)
 		if ml > 0 {
